@@ -55,12 +55,17 @@ func (ev *env) typeEnv() *typeEnv {
 	// lambda parameters: their types come from the bound values
 	var names []string
 	var vals []Value
+	var types []*Type
 	for f := ev.lambda; f != nil; f = f.parent {
 		names = append(names, f.name)
 		vals = append(vals, f.val)
+		types = append(types, f.typ)
 	}
 	for i := len(names) - 1; i >= 0; i-- {
-		t := typeOfValue(vals[i])
+		t := types[i]
+		if t == nil {
+			t = typeOfValue(vals[i])
+		}
 		if containsNothing(t) {
 			t = nil
 		}
@@ -343,7 +348,7 @@ func (sc *selectCtx) typeOfFunc(f *Func, te *typeEnv) (*Type, error) {
 	}
 	def, ok := funcs[f.Name]
 	if !ok {
-		return nil, raise("UNKNOWN_FUNCTION", "unknown function %s", f.Name)
+		return nil, unknownFunction(f.Name)
 	}
 	if f.HasParams {
 		return nil, raise("FUNCTION_CANNOT_HAVE_PARAMETERS", "function %s is not parametric", f.Name)
@@ -369,33 +374,9 @@ func (sc *selectCtx) typeOfFunc(f *Func, te *typeEnv) (*Type, error) {
 		tc.args[i] = t
 	}
 	if lam != nil {
-		// bind the lambda parameters to the element types of the array (or map) arguments
-		ptypes := make([]*Type, len(lam.Params))
-		switch f.Name {
-		case "mapFilter", "mapApply":
-			if len(lam.Params) != 2 {
-				return nil, raise("NUMBER_OF_ARGUMENTS_DOESNT_MATCH", "lambda of %s must take two arguments (key, value)", f.Name)
-			}
-			if len(tc.args) > 1 && tc.args[1] != nil {
-				if tc.args[1].Name != "Map" {
-					return nil, raise("ILLEGAL_TYPE_OF_ARGUMENT", "second argument of function %s must be a map, got %s", f.Name, tc.args[1])
-				}
-				ptypes[0], ptypes[1] = tc.args[1].Args[0], tc.args[1].Args[1]
-			}
-		default:
-			if len(lam.Params) != len(f.Args)-1 {
-				return nil, raise("NUMBER_OF_ARGUMENTS_DOESNT_MATCH", "lambda of %s takes %d arguments but %d arrays were passed", f.Name, len(lam.Params), len(f.Args)-1)
-			}
-			for i := range lam.Params {
-				at := tc.args[i+1]
-				if at == nil {
-					continue
-				}
-				if at.Name != "Array" {
-					return nil, raise("ILLEGAL_TYPE_OF_ARGUMENT", "argument %d of function %s must be an array, got %s", i+2, f.Name, at)
-				}
-				ptypes[i] = at.Args[0]
-			}
+		ptypes, err := lambdaParamTypes(f, lam, tc.args)
+		if err != nil {
+			return nil, err
 		}
 		ne := *te
 		for i, p := range lam.Params {
@@ -549,4 +530,37 @@ func aggStaticType(f *Func, spec *aggSpec, ts []*Type) (*Type, error) {
 		}
 	}
 	return rt, nil
+}
+
+// lambdaParamTypes binds the lambda parameters of a higher-order function to the element types of
+// its array (or map) arguments.
+func lambdaParamTypes(f *Func, lam *Lambda, args []*Type) ([]*Type, error) {
+	ptypes := make([]*Type, len(lam.Params))
+	switch f.Name {
+	case "mapFilter", "mapApply":
+		if len(lam.Params) != 2 {
+			return nil, raise("NUMBER_OF_ARGUMENTS_DOESNT_MATCH", "lambda of %s must take two arguments (key, value)", f.Name)
+		}
+		if len(args) > 1 && args[1] != nil {
+			if args[1].Name != "Map" {
+				return nil, raise("ILLEGAL_TYPE_OF_ARGUMENT", "second argument of function %s must be a map, got %s", f.Name, args[1])
+			}
+			ptypes[0], ptypes[1] = args[1].Args[0], args[1].Args[1]
+		}
+	default:
+		if len(lam.Params) != len(f.Args)-1 {
+			return nil, raise("NUMBER_OF_ARGUMENTS_DOESNT_MATCH", "lambda of %s takes %d arguments but %d arrays were passed", f.Name, len(lam.Params), len(f.Args)-1)
+		}
+		for i := range lam.Params {
+			at := args[i+1]
+			if at == nil {
+				continue
+			}
+			if at.Name != "Array" {
+				return nil, raise("ILLEGAL_TYPE_OF_ARGUMENT", "argument %d of function %s must be an array, got %s", i+2, f.Name, at)
+			}
+			ptypes[i] = at.Args[0]
+		}
+	}
+	return ptypes, nil
 }
